@@ -1,5 +1,7 @@
 //! yverif: property-based / fuzzing harness deciding the properties C01..C20 of yata.
 pub mod engine;
+pub mod gen;
+pub mod refm;
 pub mod props;
 
 pub use engine::{Tier, Stats, CaseResult, Failure};
